@@ -89,11 +89,8 @@ fn execute(case: &Case, ctx: &mut Ctx) -> Observed {
 
     ctx.op();
     let pxr: Vec<&tensor::Tensor> = px.iter().collect();
-    let batch = if pxr.is_empty() {
-        Vec::new()
-    } else {
-        net.predict_batch(&pxr).iter().map(|t| bits(&flat(t))).collect()
-    };
+    // (also for zero inputs: "for any number of inputs")
+    let batch: Vec<Vec<u32>> = net.predict_batch(&pxr).iter().map(|t| bits(&flat(t))).collect();
     ctx.op();
     let validate = if ex.is_empty() {
         None
@@ -269,6 +266,7 @@ impl Property for C12 {
         stats.probe("eval_ge_300", m >= 300 || case.pred.len() >= 300);
         stats.probe("eval_not_multiple_of_chunk", m > 64 && m % 64 != 0);
         stats.probe("batch_gt_chunk", case.pred.len() > 64);
+        stats.probe("batch_of_zero_inputs", case.pred.is_empty());
         stats.probe("softmax_rule", softmax);
         stats.probe("single_output_rule", !softmax && out_count == 1);
         stats.probe("fraction_rule", !softmax && out_count > 1);
